@@ -58,9 +58,48 @@ def isLaunch : Stmt → Bool
   | .launch _ _ => true
   | _ => false
 
+def isPure : Stmt → Bool
+  | .pure _ _ _ => true
+  | _ => false
+
+def pureDef : Stmt → List Var
+  | .pure d _ _ => [d]
+  | _ => []
+
+def pureArgs : Stmt → List Var
+  | .pure _ _ args => args
+  | _ => []
+
+/-- SSA order inside a list of pure statements: no statement reads or redefines a variable that a later one defines,
+and no variable is defined twice -/
+def pureSSA : List Stmt → Bool
+  | [] => true
+  | s :: r => (pureDef s ++ pureArgs s).all (fun x => !(r.flatMap pureDef).contains x) && pureSSA r
+
+/-- Side conditions under which `Props/C06.lean` proves the rotation correct (all decidable, evaluated on every real
+loop-level step):
+* `pre` (the statements of the body in front of the rotated setup) are pure operations in SSA order that do not define
+  the induction variable; the setup names no field twice;
+* every variable the setup or its input chain reads and that is not computed in `pre` (a *free* variable), and the step,
+  are not defined anywhere in the loop body;
+* all variables of the loop are below `fresh` (the clones get the ids from `fresh` on). -/
+def loopSide (a : AccId) (fs : List (Field × Var)) (pre after : List Stmt) (lb ub st iv : Var) (fresh : Nat) : Bool :=
+  let chain := inputChain pre.reverse (fs.map (·.2))
+  let predefs := pre.flatMap pureDef
+  let bodyDefs := predefs ++ defsB (Block.ofList after)
+  let reads := fs.map (·.2) ++ chain.flatMap pureArgs
+  let free := reads.filter (fun x => !predefs.contains x && x != iv)
+  pre.all isPure && pureSSA pre && !predefs.contains iv &&
+  decide (fs.map (·.1)).Nodup &&
+  free.all (fun x => !bodyDefs.contains x) && !bodyDefs.contains st && !bodyDefs.contains iv &&
+  ([lb, ub, st, iv] ++ bodyDefs ++ readsB (Block.ofList (pre ++ after)) ++ reads).all (fun x => x < fresh) &&
+  !touchesB a (Block.ofList pre)
+
 /-- `i` = index of the loop in its block (anchor), `j` = index of the matched setup in the loop body, `fresh` = first unused
-variable id -/
-def loopOverlapRw (j fresh : Nat) (_F : Facts) : Block → Nat → Option Block
+variable id. `keep`: leave the original setup in place; `ghost`: the two copies are ghosts; `chk`: also require `loopSide`.
+The real pattern is `keep = false, ghost = false` (and `chk = false` for the replay); the other variants are the
+intermediate programs of the correctness proof. -/
+def loopOverlapGen (keep ghost chk : Bool) (j fresh : Nat) (_F : Facts) : Block → Nat → Option Block
   | .cons s r, 0 =>
     match s with
     | .forS lb ub st iv body =>
@@ -69,25 +108,34 @@ def loopOverlapRw (j fresh : Nat) (_F : Facts) : Block → Nat → Option Block
       | .setup a fs :: after =>
         let pre := l.take j
         if pre.any (touchesS a) || pre.any isLaunch then none else
+        if chk && !loopSide a fs pre after lb ub st iv fresh then none else
         match launchGuard a after false with
         | some true =>
           let chain := inputChain pre.reverse (fs.map (·.2))
+          let mk := fun (x : List (Field × Var)) => if ghost then Stmt.ghost a x else Stmt.setup a x
           -- copy in front of the loop: iv ↦ lb
-          let (c0, m0, f0) := cloneChain chain [(iv, lb)] fresh
-          let s0 := Stmt.setup a (fs.map fun p => (p.1, renameVar m0 p.2))
+          let c0 := cloneChain chain [(iv, lb)] fresh
+          let s0 := mk (fs.map fun p => (p.1, renameVar c0.2.1 p.2))
           -- copy at the end of the body: iv ↦ iv + step
-          let next := f0
-          let (c1, m1, _) := cloneChain chain [(iv, next)] (f0 + 1)
-          let s1 := Stmt.setup a (fs.map fun p => (p.1, renameVar m1 p.2))
-          let body' := Block.ofList (pre ++ after ++ [Stmt.pure next .add [iv, st]] ++ c1 ++ [s1])
-          some ((Block.ofList (c0 ++ [s0, Stmt.forS lb ub st iv body'])).append r)
+          let next := c0.2.2
+          let c1 := cloneChain chain [(iv, next)] (next + 1)
+          let s1 := mk (fs.map fun p => (p.1, renameVar c1.2.1 p.2))
+          let orig := if keep then [Stmt.setup a fs] else []
+          let body' := Block.ofList (pre ++ orig ++ after ++ [Stmt.pure next .add [iv, st]] ++ c1.1 ++ [s1])
+          some ((Block.ofList (c0.1 ++ [s0, Stmt.forS lb ub st iv body'])).append r)
         | _ => none
       | _ => none
     | _ => none
-  | .cons s r, i+1 => (loopOverlapRw j fresh _F r i).map fun r' => .cons s r'
+  | .cons s r, i+1 => (loopOverlapGen keep ghost chk j fresh _F r i).map fun r' => .cons s r'
   | .nil, _ => none
+
+def loopOverlapRw (j fresh : Nat) := loopOverlapGen false false false j fresh
 
 def applyLoopOverlap (path : List Nat) (j fresh : Nat) (b : Block) : Option Block :=
   rewriteB (loopOverlapRw j fresh) path b noFacts
+
+/-- the variants used by the proof (`chk = true`) -/
+def applyLoopOverlapGen (keep ghost : Bool) (path : List Nat) (j fresh : Nat) (b : Block) : Option Block :=
+  rewriteB (loopOverlapGen keep ghost true j fresh) path b noFacts
 
 end SnaxVerif.Accfg
